@@ -794,6 +794,22 @@ class Engine:
                         self.forks += 1
                         take.add(s)
                         rest.add(s)
+            # captures of a class pattern (`case X(attr=name)` / `case X() as name`) are bound like `name = subject.attr` / `name = subject`
+            binds = []
+            pat = case.pattern
+            if isinstance(pat, ast.MatchAs) and pat.pattern is not None and pat.name:
+                binds.append((pat.name, node.subject))
+                pat = pat.pattern
+            if isinstance(pat, ast.MatchClass):
+                for attr, sub in zip(pat.kwd_attrs, pat.kwd_patterns):
+                    if isinstance(sub, ast.MatchAs) and sub.pattern is None and sub.name:
+                        binds.append((sub.name, ast.copy_location(ast.Attribute(value=node.subject, attr=attr, ctx=ast.Load()), sub)))
+                for sub in pat.patterns:
+                    if isinstance(sub, ast.MatchAs) and sub.pattern is None and sub.name:
+                        binds.append((sub.name, None))  # positional capture: which attribute depends on __match_args__ - unknown value
+            for name, vexpr in binds:
+                tgt = ast.copy_location(ast.Name(id=name, ctx=ast.Store()), case.pattern)
+                take = {sp.bind(tgt, vexpr, s, depth) if vexpr is not None else sp.bind(tgt, None, s, depth, value=UNKNOWN) for s in take}
             if sp.record_conds:
                 cexpr = pattern_to_cond(node.subject, case.pattern)
                 if cexpr is not None and not (isinstance(cexpr, ast.Constant)):
